@@ -31,17 +31,38 @@ from ...analysis.reaching_defs import AssignDef, PhiDef, same_object_defs
 from ...ast.fpyast import (
     Argument,
     Assign,
+    ContextStmt,
     Expr,
     ForStmt,
+    If1Stmt,
+    IfStmt,
     ListComp,
     ListRef,
     NamedId,
     Stmt,
+    StmtBlock,
     Var,
+    WhileStmt,
 )
 from ...utils import Unionfind
 from .storage import StorageSelectionError, aggregate_storage
 from .types import CppList, CppTuple, CppType
+
+
+def _within(site, stmt: Stmt) -> bool:
+    """Is the defining statement *site* nested inside *stmt*?"""
+    blocks: list[StmtBlock] = []
+    match stmt:
+        case IfStmt():
+            blocks = [stmt.ift, stmt.iff]
+        case If1Stmt() | WhileStmt() | ForStmt() | ContextStmt():
+            blocks = [stmt.body]
+    for block in blocks:
+        for inner in block.stmts:
+            if inner is site or _within(site, inner):
+                return True
+    return False
+
 
 
 @dataclass
@@ -297,6 +318,20 @@ class StorageInfer:
                 f'(members={members})'
             )
             first_assign = min(assigns, key=lambda d: def_use.def_to_idx[d])
+            # The lowest-index assignment dominates the class only when it
+            # sits before the branches the class merges.  When the value that
+            # enters an `if` lives in another class, every writer of this one
+            # is inside the statement: declare it before the outermost such
+            # `if`, as for a name introduced by both branches.
+            if_phis = [
+                d for d in members
+                if isinstance(d, PhiDef) and isinstance(d.site, (IfStmt, If1Stmt))
+                and _within(first_assign.site, d.site)
+            ]
+            if if_phis:
+                anchor_phi = max(if_phis, key=lambda d: def_use.def_to_idx[d])
+                hoists_before[anchor_phi.site].append(c)
+                continue
             declare_at_assign.add(first_assign)
         # Stable order per anchor for deterministic output.
         for cs in hoists_before.values():
